@@ -213,9 +213,17 @@ def run_c03(t, tier, res):
             # one entry seen so often that the list total is a round number: the once-seen values get probabilities such
             # as 8e-05 or 1e-05 (str(float) writes those without a decimal point)
             total = t.choice([12500, 25000, 50000, 100000])
-            n_lines = data.count(b"\n")
-            data = ("%d %s\n" % (max(1, total - len(usable)), usable[0])).encode(opts["encoding"]) + data
-            usable = [usable[0]] + usable
+            if t.chance(1, 2):
+                # ... and so that one terminal list has exactly that total: digit strings of one length only (the base
+                # structures of an ordinary list share the list total, a terminal list has its own)
+                width = t.choice([2, 3, 4])
+                k = t.between(3, 30)
+                usable = t.sample(["%0*d" % (width, i) for i in range(10 ** width)], k)
+                data = "".join("%d %s\n" % (total - (k - 1) if i == 0 else 1, d) for i, d in enumerate(usable)).encode("ascii")
+                res.stats["count_prefixed_lists_with_round_terminal_total"] += 1
+            else:
+                data = ("%d %s\n" % (max(1, total - len(usable)), usable[0])).encode(opts["encoding"]) + data
+                usable = [usable[0]] + usable
             res.stats["count_prefixed_lists_with_round_total"] += 1
         tr = trainer.train(None, dict(opts, prefixcount=True), raw=data)
         pws = usable
